@@ -15,13 +15,15 @@ from pennylane.decomposition.utils import _get_decomp_args
 from . import lib
 from .codec import ARITY, KNOWN, MULTI_PARAM, NO_PARAM, ONE_PARAM, OffLattice, encode_op
 
-M = 5                      # theta = a*pi/8 ; inputs use multiples of 4 (so theta/2, theta/4 stay on the lattice)
+M = 5                      # finest level used: theta = a*pi/8.  Inputs are multiples of pi/2, so theta/2 is on the M=4
+                           # lattice (pi/4) and theta/4 on the M=5 lattice; each event is validated at the coarsest level
+                           # that represents it exactly (M=4 costs a quarter of M=5)
 LABELS = ["a", 3, "c", 0, "e", 7, "g", 11]
 
 
 def _angles(rng, k):
-    base = [4, 12, 20, 28, 16, 8, 24, 0]
-    return [lib.angle_of(rng.choice(base[:5] if rng.random() < 0.8 else base), M) for _ in range(k)]
+    base = [4, 12, 20, 28, 8, 24, 16, 0]       # pi/2, 3pi/2, 5pi/2, 7pi/2, pi, 3pi, 2pi, 0
+    return [lib.angle_of(rng.choice(base[:6] if rng.random() < 0.85 else base), M) for _ in range(k)]
 
 
 def base_instances(rng, per_gate=2):
